@@ -29,7 +29,7 @@ EXPLANATION = (
     "the rejection path of parse_selection.__call__ is a CFG dominance check.")
 NOT_DECIDED = ["pyparsing's own matching behaviour (packrat cache, Keyword boundaries)", "evaluation of the compiled lambda on a topology (run-time)"]
 ASSUMPTIONS = ["pyparsing.infixNotation gives earlier levels higher precedence and treats a MatchFirst of literals as one operator level"]
-FLOORS = {"C12-R1": 30, "C12-R2": 19, "C12-R3": 10, "C12-R4": 4, "C12-R5": 4, "C12-R6": 7, "C12-R7": 3}
+FLOORS = {"C12-R1": 30, "C12-R2": 19, "C12-R3": 10, "C12-R4": 4, "C12-R5": 4, "C12-R6": 7, "C12-R7": 3, "C12-R8": 6}
 
 SEL = "mdtraj/core/selection.py"
 TOP = "mdtraj/core/topology.py"
@@ -113,6 +113,8 @@ def check(ctx):
     ctx.rule("C12-R5", "select and select_expression use the .expr / .source of the same parse_selection(s) result over topology.atoms in order")
     ctx.rule("C12-R6", "the single return of parse_selection.__call__ is dominated by parseString(selection, parseAll=True); ParseException is re-raised; semantic checks raise")
     ctx.rule("C12-R7", "operator keywords are excluded from literals; no spelling is both a keyword alias and an operator")
+    ctx.rule("C12-R8", "literals become constants through Python's own parser; the literal checks and the AST cover every operand of a chain; memoised topology attributes are reset by every mutator")
+    r8(ctx)
     mod = ctx.py.mod(SEL)
 
     # ---------------- tables -------------------------------------------------------------------
@@ -323,3 +325,114 @@ def check(ctx):
     ctx.decide(not both, "C12-R7", cnode, SEL, "SelectionKeyword", "aliases and operators are disjoint", "", "spellings %s are both keyword and operator" % both)
     dup = [k for k in set(k for k, _, _ in kw_tab) if sum(1 for k2, _, _ in kw_tab if k2 == k) > 1]
     ctx.decide(not dup, "C12-R7", cnode, SEL, "SelectionKeyword", "no alias listed twice", "", "aliases %s are listed under two keywords (the later silently wins)" % dup)
+
+
+# ---------------------------------------------------------------------------------------------------
+# R8: literals, operand checks, memoised attributes
+# ---------------------------------------------------------------------------------------------------
+_STR_EDIT = {"strip", "lstrip", "rstrip", "replace", "translate", "removeprefix", "removesuffix", "split", "lower", "upper"}
+
+
+def r8(ctx):
+    mod = ctx.py.mod(SEL)
+    # (a) literal -> Python constant through the Python parser, on every path
+    fn = ctx.py.func(SEL, "Literal.ast")
+    rets = [n for n in walk_no_nested(fn) if isinstance(n, ast.Return)]
+    if not rets:
+        raise AnalysisError("Literal.ast has no return")
+    for r in rets:
+        s = src(r.value).replace(" ", "").replace('"', "'") if r.value is not None else ""
+        if s in ("ast.parse(self.token,mode='eval').body", "ast.parse(self.token,'<string>','eval').body"):
+            ctx.holds("C12-R8", r, SEL, "Literal.ast", "literal parsed by ast.parse(token, mode='eval')", "quoting and escapes follow Python's own literal syntax")
+            continue
+        edits = [c for c in ast.walk(r.value) if isinstance(c, ast.Call) and isinstance(c.func, ast.Attribute) and c.func.attr in _STR_EDIT] if r.value is not None else []
+        slices = [c for c in ast.walk(r.value) if isinstance(c, ast.Subscript) and isinstance(c.slice, ast.Slice)] if r.value is not None else []
+        if edits or slices:
+            ctx.violated("C12-R8", r, SEL, "Literal.ast", "literal parsed by ast.parse(token, mode='eval')",
+                         "a literal is turned into a constant by editing the token text (%s): characters that belong to the value (a trailing prime in O5', an embedded quote) are lost or kept wrongly"
+                         % ", ".join(sorted({c.func.attr for c in edits} | ({"slice"} if slices else set()))))
+        else:
+            ctx.undecided("C12-R8", r, SEL, "Literal.ast", "literal parsed by ast.parse(token, mode='eval')", "unrecognised literal conversion `%s`" % s[:80])
+    # (b) the literal checks of BinaryInfixOperand range over every operand of a chain
+    fn = ctx.py.func(SEL, "BinaryInfixOperand.__init__")
+    comp = [n for n in walk_no_nested(fn) if isinstance(n, ast.Assign) and dotted(n.targets[0]) == "self.comparators"]
+    ok = bool(comp) and src(comp[0].value).replace(" ", "") == "tokens[::2]"
+    ctx.decide(ok, "C12-R8", comp[0] if comp else fn, SEL, "BinaryInfixOperand.__init__", "operands = tokens[::2] (all terms of a same-level chain)", "",
+               "the operands of a chain `a op b op c ...` are taken as %s" % (src(comp[0].value) if comp else None))
+    for needle, quant in (("Cannot use literals as truth", "any"), ("Cannot compare literals", "all")):
+        guard = None
+        for n in walk_no_nested(fn):
+            if isinstance(n, ast.If) and any(isinstance(s2, ast.Raise) and needle in src(s2) for s2 in n.body):
+                guard = n
+        if guard is None:
+            ctx.violated("C12-R8", fn, SEL, "BinaryInfixOperand.__init__", "check `%s` over all operands" % needle, "the check is gone")
+            continue
+        t = guard.test
+        ok = isinstance(t, ast.Call) and call_name(t) == quant and t.args and isinstance(t.args[0], (ast.GeneratorExp, ast.ListComp)) and \
+            src(t.args[0].generators[0].iter) == "self.comparators" and "isinstance(" in src(t.args[0].elt) and "Literal" in src(t.args[0].elt)
+        ctx.decide(ok, "C12-R8", guard, SEL, "BinaryInfixOperand.__init__", "check `%s` is %s(... for c in self.comparators)" % (needle, quant), "",
+                   "the check `%s` is `%s`: it does not look at every operand of a chain of three or more terms, so `protein and name CA and CB` is accepted with a bare literal as truth value"
+                   % (needle, src(t)[:90]))
+    ast_fn = ctx.py.func(SEL, "BinaryInfixOperand.ast")
+    s = src(ast_fn).replace(" ", "")
+    ok = "values=[e.ast()foreinself.comparators]" in s and "left=self.comparators[0].ast()" in s and "comparators=[e.ast()foreinself.comparators[1:]]" in s
+    ctx.decide(ok, "C12-R8", ast_fn, SEL, "BinaryInfixOperand.ast", "every operand of a chain enters the AST", "", "some operands of a chain are dropped from the generated AST")
+    # (c) attributes behind keywords are computed from the live topology: any memo field must be reset by every mutator
+    memo_coherence(ctx, "C12-R8")
+
+
+_MUTATORS = {"append", "insert", "remove", "pop", "extend", "sort", "clear", "reverse"}
+_SOURCES = ("_bonds", "_atoms", "_residues", "_chains")
+
+
+def memo_coherence(ctx, rule):
+    """Topology memo fields (None in __init__, filled lazily from _bonds/_atoms/...) must be reset by every method that changes their sources."""
+    mod = ctx.py.mod(TOP)
+    cls = mod.cls("Topology")
+    methods = {n.name: n for n in cls.body if isinstance(n, ast.FunctionDef)}
+    init = methods.get("__init__")
+    none_fields = {dotted(t)[5:] for n in ast.walk(init) if isinstance(n, ast.Assign) for t in n.targets
+                   if (dotted(t) or "").startswith("self._") and isinstance(n.value, ast.Constant) and n.value.value is None}
+    memo = {}
+    for name, m in methods.items():
+        if name == "__init__":
+            continue
+        for n in ast.walk(m):
+            if isinstance(n, ast.Assign):
+                for t in n.targets:
+                    f = (dotted(t) or "")
+                    if f.startswith("self._") and f[5:] in none_fields and not (isinstance(n.value, ast.Constant) and n.value.value is None):
+                        reads = {a.attr for a in ast.walk(m) if isinstance(a, ast.Attribute) and dotted(a.value) == "self" and a.attr in _SOURCES}
+                        uses_index = any(isinstance(a, ast.Attribute) and a.attr == "index" for a in ast.walk(m))
+                        memo.setdefault(f[5:], {"filled_in": name, "sources": set(), "index": False})
+                        memo[f[5:]]["sources"] |= reads
+                        memo[f[5:]]["index"] |= uses_index
+    ctx.stats["topology_memo_fields"] = {k: {"filled_in": v["filled_in"], "sources": sorted(v["sources"]), "keyed_by_index": v["index"]} for k, v in memo.items()}
+    ctx.holds(rule, cls, TOP, "Topology", "memo fields enumerated (%d None-initialised fields, %d lazily filled)" % (len(none_fields), len(memo)),
+              "fields: %s" % sorted(memo))
+    for f, info in sorted(memo.items()):
+        for name, m in sorted(methods.items()):
+            if name in ("__init__", info["filled_in"]):
+                continue
+            touches = set()
+            for n in ast.walk(m):
+                if isinstance(n, ast.Call) and isinstance(n.func, ast.Attribute) and n.func.attr in _MUTATORS and (dotted(n.func.value) or "").startswith("self.") \
+                        and (dotted(n.func.value) or "")[5:] in info["sources"]:
+                    touches.add(dotted(n.func.value)[5:])
+                if isinstance(n, (ast.Assign, ast.AugAssign, ast.Delete)):
+                    tg = n.targets if isinstance(n, (ast.Assign, ast.Delete)) else [n.target]
+                    for t in tg:
+                        base = t
+                        while isinstance(base, ast.Subscript):
+                            base = base.value
+                        d = dotted(base) or ""
+                        if d.startswith("self.") and d[5:] in info["sources"]:
+                            touches.add(d[5:])
+                        if info["index"] and isinstance(t, ast.Attribute) and t.attr == "index":
+                            touches.add("atom/residue .index")
+            if not touches:
+                continue
+            resets = any(isinstance(n, ast.Assign) and any(dotted(t) == "self." + f for t in n.targets) and isinstance(n.value, ast.Constant) and n.value.value is None for n in ast.walk(m))
+            ctx.decide(resets, rule, m, TOP, "Topology." + name, "memo %s reset when %s change" % (f, sorted(touches)), "",
+                       "Topology.%s changes %s but does not reset the memo `%s` filled by %s: an attribute served from it (e.g. through a selection keyword) describes the topology before the change"
+                       % (name, sorted(touches), f, info["filled_in"]))
